@@ -193,15 +193,15 @@ inductive Tail (tmp dst : Path) : List Act → Prop
 /-- **closed form**: create, writes to `tmp` only, then one of the four tails; the commit tail occurs exactly when the
     result is `ok`, and then every chunk of the whole content has been written before it -/
 theorem writeFile_shape (tmp dst : Path) (N mode : Nat) (pieces : List Bytes) (fault : Fault) :
-    ∃ ws tl, (writeFile tmp dst N mode pieces fault).2 = [.createExcl tmp mode] ++ ws ++ tl ∧
+    ∃ ws tl, (writeFileClosed tmp dst N mode pieces fault).2 = [.createExcl tmp mode] ++ ws ++ tl ∧
       OnlyWrites tmp ws ∧ Tail tmp dst tl ∧
-      ((writeFile tmp dst N mode pieces fault).1 = .ok ↔ tl = [.close tmp, .rename tmp dst]) ∧
+      ((writeFileClosed tmp dst N mode pieces fault).1 = .ok ↔ tl = [.close tmp, .rename tmp dst]) ∧
       (tl = [.close tmp, .rename tmp dst] → ws = (chunks N pieces).map (Act.write tmp)) := by
   have hcreate : File.create tmp dst mode = (openFile tmp dst, [.createExcl tmp mode]) := rfl
   have hne1 : ([Act.close tmp, .unlink tmp] : List Act) ≠ [.close tmp, .rename tmp dst] := by simp
   have hne2 : ([Act.closeFail tmp, .unlink tmp] : List Act) ≠ [.close tmp, .rename tmp dst] := by simp
   have hne3 : ([Act.close tmp, .renameFail tmp dst, .unlink tmp] : List Act) ≠ [.close tmp, .rename tmp dst] := by simp
-  unfold writeFile
+  unfold writeFileClosed
   simp only [hcreate]
   have hw := writeAll_onlyWrites tmp dst (attempted N pieces fault) fault.writeAt
   have hr := writeAll_res tmp dst (attempted N pieces fault) fault.writeAt
@@ -259,16 +259,16 @@ def Fault.fires (N : Nat) (pieces : List Bytes) : Fault → Prop
   | .rename => True
 
 theorem writeFile_ok_iff (tmp dst : Path) (N mode : Nat) (pieces : List Bytes) (fault : Fault) :
-    (writeFile tmp dst N mode pieces fault).1 = .ok ↔ ¬ fault.fires N pieces := by
+    (writeFileClosed tmp dst N mode pieces fault).1 = .ok ↔ ¬ fault.fires N pieces := by
   have hcreate : File.create tmp dst mode = (openFile tmp dst, [.createExcl tmp mode]) := rfl
   cases fault with
   | none =>
-    unfold writeFile
+    unfold writeFileClosed
     simp only [hcreate, Fault.writeAt, attempted, writeAll_none]
     simp [Fault.isCallback, File.commit, File.close, openFile, Fault.fires]
   | callback j =>
     simp only [Fault.fires, not_true_eq_false, iff_false]
-    unfold writeFile
+    unfold writeFileClosed
     simp only [Fault.isCallback, or_true, if_true]
     intro h
     split at h
@@ -278,19 +278,19 @@ theorem writeFile_ok_iff (tmp dst : Path) (N mode : Nat) (pieces : List Bytes) (
     simp only [Fault.fires]
     by_cases hk : k < (chunks N pieces).length
     · simp only [hk, not_true_eq_false, iff_false]
-      unfold writeFile
+      unfold writeFileClosed
       simp only [hcreate, Fault.writeAt, attempted, writeAll_lt tmp dst _ k hk]
       simp
     · simp only [hk, not_false_eq_true, iff_true]
-      unfold writeFile
+      unfold writeFileClosed
       simp only [hcreate, Fault.writeAt, attempted, writeAll_ge tmp dst _ k (Nat.le_of_not_lt hk)]
       simp [Fault.isCallback, File.commit, File.close, openFile]
   | close =>
-    unfold writeFile
+    unfold writeFileClosed
     simp only [hcreate, Fault.writeAt, attempted, writeAll_none]
     simp [Fault.isCallback, File.commit, File.close, openFile, Fault.fires]
   | rename =>
-    unfold writeFile
+    unfold writeFileClosed
     simp only [hcreate, Fault.writeAt, attempted, writeAll_none]
     simp [Fault.isCallback, File.commit, File.close, openFile, Fault.fires]
 
@@ -700,5 +700,192 @@ theorem fileRun_shape (tmp dst : Path) (mode : Nat) (pieces : List Bytes) (doCom
           · simp [File.commit, File.close, openFile, hcl, hrn]
           · exact ⟨fun _ => ⟨by simp [File.commit, File.close, openFile, hcl, hrn], trivial⟩, fun _ => rfl⟩
           · intro _; exact hok hwok
+
+end Safe
+
+namespace Safe
+
+/-! ## `writeFile` (bufio with its sticky error, callback behaviour) equals its closed form -/
+
+def errBW : BW := { buf := [], err := true, failIn := none }
+
+theorem map_sub_zero (o : Option Nat) : o.map (· - 0) = o := by cases o <;> rfl
+
+theorem sys_fail (tmp dst : Path) (b : BW) (c : Bytes) (h : b.failIn = some 0) :
+    b.sys (openFile tmp dst) c = (errBW, [Act.writeFail tmp c.length]) := by
+  simp [BW.sys, h, File.write, openFile, errBW]
+
+theorem sys_ok (tmp dst : Path) (b : BW) (c : Bytes) (h : b.failIn ≠ some 0) :
+    b.sys (openFile tmp dst) c = ({ b with failIn := b.failIn.map (· - 1) }, [Act.write tmp c]) := by
+  simp [BW.sys, h, File.write, openFile]
+
+/-- the bufio state and the actions after trying to write the chunks `cs`, `buf'` being what stays buffered -/
+def after (f : File) (b : BW) (cs : List Bytes) (buf' : Bytes) : BW × List Act :=
+  (if (writeAll f cs b.failIn).1 = .ok then { buf := buf', err := false, failIn := b.failIn.map (· - cs.length) }
+   else errBW, (writeAll f cs b.failIn).2)
+
+theorem writeAll_one (tmp dst : Path) (c : Bytes) (o : Option Nat) :
+    writeAll (openFile tmp dst) [c] o =
+      if o = some 0 then (.errno, [Act.writeFail tmp c.length]) else (.ok, [Act.write tmp c]) := by
+  by_cases h : o = some 0 <;> simp [writeAll, h, File.write, openFile]
+
+/-- one `bufio.Writer.Write` = the pure chunking rule + writing those chunks until one fails -/
+theorem write_sim (N : Nat) (tmp dst : Path) (b : BW) (hb : b.err = false) (p : Bytes) :
+    b.write N (openFile tmp dst) p =
+      after (openFile tmp dst) b (bufWrite N b.buf p).1 (bufWrite N b.buf p).2 := by
+  obtain ⟨buf, err, failIn⟩ := b
+  simp only at hb; subst hb
+  unfold BW.write bufWrite after
+  simp only [Bool.false_eq_true, if_false]
+  split
+  · simp [writeAll, map_sub_zero]
+  · split
+    · rename_i hlen
+      have hbuf : buf = [] := List.eq_nil_of_length_eq_zero hlen
+      subst hbuf
+      by_cases h0 : failIn = some 0
+      · rw [sys_fail _ _ _ _ h0]; simp [writeAll_one, h0]
+      · rw [sys_ok _ _ _ _ h0]; simp [writeAll_one, h0]
+    · by_cases hr : (p.drop (N - buf.length)).length ≤ N
+      · simp only [hr, if_true]
+        by_cases h0 : failIn = some 0
+        · rw [sys_fail _ _ _ _ h0]; simp [writeAll_one, h0, errBW]
+        · rw [sys_ok _ _ _ _ h0]; simp [writeAll_one, h0]
+      · simp only [hr, if_false]
+        by_cases h0 : failIn = some 0
+        · rw [sys_fail _ _ _ _ h0]; simp [writeAll, h0, File.write, openFile, errBW]
+        · rw [sys_ok _ _ _ _ h0]
+          simp only [Bool.false_eq_true, if_false]
+          by_cases h1 : failIn.map (· - 1) = some 0
+          · rw [sys_fail _ _ _ _ h1]
+            simp [writeAll, h0, h1, File.write, openFile]
+          · rw [sys_ok _ _ _ _ h1]
+            have h2 : (failIn.map (· - 1)).map (· - 1) = failIn.map (· - 2) := by
+              cases failIn <;> simp; omega
+            simp [writeAll, h0, h1, File.write, openFile, h2]
+
+end Safe
+
+namespace Safe
+
+theorem writeAll_append (f : File) (a c : List Bytes) (o : Option Nat) :
+    writeAll f (a ++ c) o =
+      if (writeAll f a o).1 = .ok then
+        ((writeAll f c (o.map (· - a.length))).1, (writeAll f a o).2 ++ (writeAll f c (o.map (· - a.length))).2)
+      else writeAll f a o := by
+  induction a generalizing o with
+  | nil => simp [writeAll, map_sub_zero]
+  | cons x a ih =>
+    simp only [List.cons_append, writeAll]
+    by_cases h0 : o = some 0
+    · simp only [h0, if_true]
+      unfold File.write
+      split <;> (try split) <;> simp
+    · simp only [h0, if_false]
+      rw [ih]
+      have hm : (o.map (· - 1)).map (· - a.length) = o.map (· - (x :: a).length) := by
+        cases o <;> simp; omega
+      rw [hm]
+      split <;> simp [List.append_assoc]
+
+theorem after_err_false (f : File) (b : BW) (cs : List Bytes) (buf' : Bytes) :
+    (after f b cs buf').1.err = false ↔ (writeAll f cs b.failIn).1 = .ok := by
+  unfold after
+  split <;> simp_all [errBW]
+
+/-- composing two rounds of chunk writing -/
+theorem after_after (f : File) (b : BW) (cs cs2 : List Bytes) (buf1 buf2 : Bytes)
+    (hok : (writeAll f cs b.failIn).1 = .ok) :
+    ((after f (after f b cs buf1).1 cs2 buf2).1, (after f b cs buf1).2 ++ (after f (after f b cs buf1).1 cs2 buf2).2) =
+      after f b (cs ++ cs2) buf2 := by
+  have hm : (b.failIn.map (· - cs.length)).map (· - cs2.length) = b.failIn.map (· - (cs ++ cs2).length) := by
+    cases b.failIn <;> simp; omega
+  unfold after
+  simp only [hok, if_true, writeAll_append, hm]
+  split <;> simp_all
+
+/-- once the sticky error is set a callback that keeps writing does not touch the file any more -/
+theorem callback_keep_err (N : Nat) (f : File) (b : BW) (hb : b.err = true) (ps : List Bytes) :
+    callback N f .swallowKeep b none ps = (b, .ok, []) := by
+  induction ps with
+  | nil => simp [callback]
+  | cons p ps ih => simp [callback, BW.write, hb, ih]
+
+/-- the callback without an error of its own = chunking all pieces + writing the chunks until one fails; it returns
+    the write error only if it propagates errors -/
+theorem callback_sim (N : Nat) (tmp dst : Path) (cb : CbMode) (ps : List Bytes) :
+    ∀ b : BW, b.err = false →
+      callback N (openFile tmp dst) cb b none ps =
+        ((after (openFile tmp dst) b (feed N b.buf ps).1 (feed N b.buf ps).2).1,
+         (if (after (openFile tmp dst) b (feed N b.buf ps).1 (feed N b.buf ps).2).1.err = true ∧ cb = .propagate
+          then .errno else .ok),
+         (after (openFile tmp dst) b (feed N b.buf ps).1 (feed N b.buf ps).2).2) := by
+  induction ps with
+  | nil =>
+    intro b hb
+    obtain ⟨buf, err, failIn⟩ := b
+    simp only at hb; subst hb
+    simp [callback, feed, after, writeAll, map_sub_zero]
+  | cons p ps ih =>
+    intro b hb
+    simp only [callback, feed]
+    rw [write_sim N tmp dst b hb p]
+    have hne : (none : Option Nat) ≠ some 0 := by simp
+    simp only [hne, if_false, Option.map_none]
+    by_cases hok : (writeAll (openFile tmp dst) (bufWrite N b.buf p).1 b.failIn).1 = .ok
+    · -- the chunks of this piece were written: go on with the next piece
+      have herr := (after_err_false (openFile tmp dst) b (bufWrite N b.buf p).1 (bufWrite N b.buf p).2).mpr hok
+      have hbuf : (after (openFile tmp dst) b (bufWrite N b.buf p).1 (bufWrite N b.buf p).2).1.buf = (bufWrite N b.buf p).2 := by
+        simp [after, hok]
+      simp only [herr, Bool.false_eq_true, false_and, if_false]
+      rw [ih _ herr, hbuf]
+      have hc := after_after (openFile tmp dst) b (bufWrite N b.buf p).1 (feed N (bufWrite N b.buf p).2 ps).1
+        (bufWrite N b.buf p).2 (feed N (bufWrite N b.buf p).2 ps).2 hok
+      have h1 := congrArg Prod.fst hc
+      have h2 := congrArg Prod.snd hc
+      simp only at h1 h2
+      rw [h1, h2]
+    · -- a write failed: the sticky error is set
+      have hafter : after (openFile tmp dst) b (bufWrite N b.buf p).1 (bufWrite N b.buf p).2 =
+          (errBW, (writeAll (openFile tmp dst) (bufWrite N b.buf p).1 b.failIn).2) := by
+        simp [after, hok]
+      have hall : after (openFile tmp dst) b ((bufWrite N b.buf p).1 ++ (feed N (bufWrite N b.buf p).2 ps).1)
+          (feed N (bufWrite N b.buf p).2 ps).2 = (errBW, (writeAll (openFile tmp dst) (bufWrite N b.buf p).1 b.failIn).2) := by
+        simp [after, writeAll_append, hok]
+      rw [hafter, hall]
+      cases cb with
+      | propagate => simp [errBW]
+      | swallowStop => simp [errBW]
+      | swallowKeep =>
+        simp only [errBW, true_and, reduceCtorEq, if_false]
+        have := callback_keep_err N (openFile tmp dst) errBW rfl ps
+        simp only [errBW] at this
+        rw [this]
+        simp
+
+/-- a callback that fails by itself after `j` pieces (no write fault): the chunks of the first `j` pieces -/
+theorem callback_cbfail (N : Nat) (tmp dst : Path) (cb : CbMode) (ps : List Bytes) :
+    ∀ (b : BW) (j : Nat), b.err = false → b.failIn = none →
+      (callback N (openFile tmp dst) cb b (some j) ps).2 =
+        (.cb, (feed N b.buf (ps.take j)).1.map (Act.write tmp)) := by
+  induction ps with
+  | nil => intro b j _ _; simp [callback, feed]
+  | cons p ps ih =>
+    intro b j hb hf
+    cases j with
+    | zero => simp [callback, feed]
+    | succ j =>
+      simp only [callback, List.take_succ_cons, feed]
+      rw [write_sim N tmp dst b hb p]
+      have hw : writeAll (openFile tmp dst) (bufWrite N b.buf p).1 b.failIn = (.ok, (bufWrite N b.buf p).1.map (Act.write tmp)) := by
+        rw [hf]; exact writeAll_none tmp dst _
+      have hafter : after (openFile tmp dst) b (bufWrite N b.buf p).1 (bufWrite N b.buf p).2 =
+          ({ buf := (bufWrite N b.buf p).2, err := false, failIn := none }, (bufWrite N b.buf p).1.map (Act.write tmp)) := by
+        simp [after, hw, hf]
+      rw [hafter]
+      simp only [Option.some.injEq, Nat.succ_ne_zero, if_false, Bool.false_eq_true, false_and, Option.map_some,
+        Nat.add_sub_cancel]
+      rw [ih _ j rfl rfl]
+      simp
 
 end Safe
